@@ -109,7 +109,7 @@ CHECKS = {
         category="translation_validation", design_ref="DESIGN.md §4 C22",
         technique="TLA+ RV32IM instruction-level model (RV.tla) executed by TLC on the parsed assembly emitted by the real pipeline, next to the source under Machine.tla, on the same inputs; calling-convention clauses (results in a0/a1, callee-saved registers and sp restored)",
         text="Generated i32 programs (arith incl. division, shifts and boundary constants, all cmpi predicates observed through index casts, scf.for with iter_args and dynamic bounds, up to >= 10 live values) are compiled by the documented RISC-V pipeline and printed as assembly; TLC runs source and instructions on boundary/random inputs. RISC-V snippets (random, plus the grid of every R-/I-type op on boundary constants and immediates) are printed before and after canonicalize alone and both executed under RV.tla. riscv-level functions writing pre-assigned s-registers are printed before and after riscv-prologue-epilogue-insertion: same a0, callee-saved registers and sp restored (the arith pipeline itself never allocates s-registers).",
-        note="Trusted: RV.tla / Machine.tla; the assembly parser (harness/drivers/c22.py). Integer only: floating point (f32/f64 constants, fcvt, fadd..) is not modelled, so float lowering defects are out of reach. Programs the pipeline refuses (unsupported ops, out of registers, si12 immediates rejected by canonicalize) are outside the property and counted in the evidence. One defect repaired (cmpi predicate table)."),
+        note="Trusted: RV.tla / Machine.tla; the assembly parser (harness/drivers/c22.py). Integer only: floating point (f32/f64 constants, fcvt, fadd..) is not modelled, so float lowering defects are out of reach. Programs the pipeline refuses (unsupported ops, out of registers, si12 immediates rejected by canonicalize) are outside the property and counted in the evidence. One defect repaired (cmpi predicate table), one open finding (loop-carried register taken before the last use of the block argument; directed family of two-variable loops with controls)."),
     "C23": dict(
         category="exploration", design_ref="DESIGN.md §4 C23",
         technique="TLA+ semantics of the llvm dialect's integer / branch / stack-slot ops (Machine.tla LLVMEval, poison = no obligation) executed by TLC to judge the results of natively executed code produced by the real backend (LLVM verifier + MCJIT via llvmlite)",
